@@ -72,7 +72,8 @@ class Ctx:
         self.violations: dict[str, dict] = {}
         self._state_fd = os.open(state_path, os.O_WRONLY | os.O_CREAT, 0o600) if state_path else None
         self._t0 = time.time()
-        self._seconds = float(self.spec.get("seconds", 0) or 0)
+        # VERIF_TIME_SCALE shortens the time-bounded shards for smoke runs of a tier (floors may then be inconclusive)
+        self._seconds = float(self.spec.get("seconds", 0) or 0) * float(os.environ.get("VERIF_TIME_SCALE", "1") or 1)
         self._sample_rng = random.Random(f"samples/{seed}/{self.spec.get('name', '')}")
         self._sample_seen = 0
         self.current_case = None
